@@ -37,7 +37,7 @@ func init() {
 		Prop:  "C01",
 		Level: "exploration",
 		Rule: "differential simulation against an executable sequential specification with a full read-back (GetRaw, Exists, GetExpiry, GetWithXattrs, GetXattrs, virtual xattrs) before and after every operation; " +
-			"cases = bounded-exhaustive (pre-state setup x op variant x follow-up) sequences plus PRNG-drawn long histories; plus reads through the DataStore a second handle still holds for a collection that was dropped (they must report every key missing, whatever was created since); a cell is distinct if (op variant, pre-state class, outcome class, bucket type) is new; Incr with amount 0 and SetRaw with PreserveExpiry are in the catalogue; (stale DataStore) CreateDataStore for collections that exist must leave their documents alone; counters around 2^63; (refused inside the transaction) a call whose INSERT / UPDATE is refused by an unevaluable expression index must leave the key's complete read-back as it was",
+			"cases = bounded-exhaustive (pre-state setup x op variant x follow-up) sequences plus PRNG-drawn long histories; plus reads through the DataStore a second handle still holds for a collection that was dropped (they must report every key missing, whatever was created since); a cell is distinct if (op variant, pre-state class, outcome class, bucket type) is new; Incr with amount 0 and SetRaw with PreserveExpiry are in the catalogue; (stale DataStore) CreateDataStore for collections that exist must leave their documents alone; counters around 2^63; (refused inside the transaction) a call whose INSERT / UPDATE is refused by an unevaluable expression index must leave the key's complete read-back as it was; (forced windows) what an Update / WriteUpdateWithXattrs attempt that lost its CAS check asked for must not be stored by the winning attempt",
 		Assumptions: []string{"bodies up to a few hundred bytes, plus a profile with 64 KiB - 1 MiB bodies and a MaxDocSize boundary profile", "keys from a small pool plus hostile keys", "expiries far in the future (timer never fires)", "error messages, log output not compared"},
 		Parts: []sup.Part{
 			exhaustivePart("exhaustive", base),
@@ -46,6 +46,9 @@ func init() {
 			randomPart("big-bodies", 40, 400, big),
 			randomPart("maxdocsize", 60, 900, small),
 			{Name: "stale-handle-after-drop", Timeout: 60 * time.Second, Count: func(t string) int { return tierN(t, 60, 1200) }, Run: staleHandleScenario},
+			{Name: "forced-windows", Timeout: 60 * time.Second, Count: func(t string) int { return tierN(t, 2, 20) }, Run: func(c *sup.Ctx) {
+				windowScenario(c, rng.New(c.Seed, rng.HashString("C01win"), uint64(c.Local)), []string{"C02", "C03", "C18"})
+			}},
 			{Name: "refused-inside-the-transaction", Timeout: 90 * time.Second, Count: func(t string) int { return tierN(t, 30, 600) }, Run: refusedWriteScenario},
 		},
 		Floor: func(tier string, m *sup.Merged) string {
